@@ -71,6 +71,11 @@ def histories(rng, tier):
             red = rng.choice(['and', 'or'])
         else:
             red = rng.choice(FLOAT_REDS + ['wmean'])
+        # allocated-but-empty blocks: a pre-allocated coverage pixel that never receives a valid pixel
+        # (the weight map below does not have it, or has it elsewhere)
+        empty_block = rng.random() < 0.35
+        if empty_block:
+            c.covpix = [rng.randrange(c.ncov)]
         h = [c.line()]
         pix = fill_groups(rng, c, h, ordout, full_only=(red == 'and'))
         if rng.random() < 0.2 and pix and red != 'and':
@@ -78,9 +83,13 @@ def histories(rng, tier):
         wtxt = ''
         if red == 'wmean' or rng.random() < 0.1:
             w = gen.MapCfg('w', 'plain', c.covord, c.spord, dtype=rng.choice(['f4', 'f8']))
+            if empty_block and rng.random() < 0.5:
+                w.covpix = [rng.randrange(c.ncov)]
             h.append(w.line())
-            h.append('valid m')          # the harness turns this into the weight fill below
-            h.append('WFILL')            # placeholder expanded by prepare()
+            h.append('valid m')
+            # same valid set; either filled in another order (shuffled blocks) or in the SAME order as m
+            # (same listing order, but the empty blocks sit elsewhere / are absent)
+            h.append('WFILL_SAME' if rng.random() < 0.5 else 'WFILL')
             wtxt = ' w=w'
         h.append('deg m r=d ord=%d red=%s%s' % (ordout, red, wtxt))
         h += ['info d', 'state d', 'vals d', 'valid d', 'covmask d', 'state m', 'vals m']
@@ -97,7 +106,7 @@ def histories(rng, tier):
 def expand_wfill(rng, h):
     """replace WFILL by updates giving the weight map the same valid set as m (tracked from the updates),
     in a different order"""
-    if 'WFILL' not in h:
+    if 'WFILL' not in h and 'WFILL_SAME' not in h:
         return h
     valid = {}
     for ln in h:
@@ -114,7 +123,21 @@ def expand_wfill(rng, h):
     rng.shuffle(pix)
     out = []
     for ln in h:
-        if ln == 'WFILL':
+        if ln == 'WFILL_SAME':
+            # replay m's own update calls on w with weight values (cleared pixels are cleared too)
+            for l2 in h:
+                t = l2.split()
+                if t[0] == 'upd' and t[1] == 'm':
+                    ptok = next(x for x in t if x.startswith('pix='))
+                    if ptok == 'pix=_':
+                        continue
+                    npx = len(ptok[4:].split(','))
+                    if 'none=1' in t:
+                        out.append('upd w op=replace none=1 %s' % ptok)
+                    else:
+                        out.append('upd w op=replace %s vals=%s' % (
+                            ptok, ','.join(rng.choice(['1', '2', '3', '1^1', '5', '1^2']) for _ in range(npx))))
+        elif ln == 'WFILL':
             half = len(pix) // 2
             for ch in (pix[half:], pix[:half]):
                 if ch:
